@@ -6,5 +6,5 @@ CONSTANTS
   SpansOp <- SpansByRank
   Pols <- SmallPols
 SPECIFICATION MCSpec
-INVARIANTS PkConstant SharesVerify ZeroSharingsAreZero BlindedSumIsSecret QualifiedReconstruct
+INVARIANTS PkConstant SharesVerify ZeroSharingsAreZero BlindedSumIsSecret QualifiedReconstruct SignAlgebra
 CHECK_DEADLOCK FALSE
